@@ -276,6 +276,15 @@ class Prov:
             return ast.fix_missing_locations(e)
         return ast.unparse(ast.fix_missing_locations(e))
 
+    def _finish_ast(self, e, strip=True):
+        """callee names resolved, casts dropped, keywords sorted - on an already substituted expression tree"""
+        old = getattr(self, "_want_ast", False)
+        self._want_ast = True
+        try:
+            return self._finish(e, strip)
+        finally:
+            self._want_ast = old
+
     def term(self, expr, at_stmt, strip=True, stop=()):
         """the canonical form as an expression tree (for sa.template.match_expr); same vocabulary as canon()"""
         self._want_ast = True
